@@ -498,14 +498,12 @@ fn thread_body(progs: Arc<Vec<Prog>>, t: ThreadSpec) -> Box<dyn FnOnce(&Actor) +
     })
 }
 
-fn ref_body(progs: Arc<Vec<Prog>>) -> Box<dyn FnOnce(&Actor) + Send + 'static> {
+fn ref_body(progs: Arc<Vec<Prog>>, p: usize) -> Box<dyn FnOnce(&Actor) + Send + 'static> {
     Box::new(move |actor: &Actor| {
-        for p in 0..progs.len() {
-            ARGNAME_CTR.store(0, Ordering::SeqCst);
-            let mut a = Allocator::new();
-            let mut s = HashMap::new();
-            run_compile_op(actor, &progs, p, &None, &mut a, &mut s, true, false);
-        }
+        ARGNAME_CTR.store(0, Ordering::SeqCst);
+        let mut a = Allocator::new();
+        let mut s = HashMap::new();
+        run_compile_op(actor, &progs, p, &None, &mut a, &mut s, true, false);
     })
 }
 
@@ -613,7 +611,7 @@ pub fn generate(rng: &mut Rng, thorough: bool) -> Workload {
             continue;
         }
         // dialect mix biased towards the optimising dialects, which do the most
-        let d = *rng.pick(&[0usize, 1, 2, 3, 4, 4, 4, 4, 5, 5, 5, 6, 6, 6]);
+        let d = *rng.pick(&[0usize, 0, 1, 2, 3, 4, 4, 4, 4, 5, 5, 5, 6, 6, 6]);
         let size = *rng.pick(&[15u32, 30, 50, 80]);
         let mut text = gen_prog::program(rng, d, size);
         let mut files: Vec<(String, String)> = Vec::new();
@@ -674,6 +672,24 @@ pub fn generate(rng: &mut Rng, thorough: bool) -> Workload {
             cli: rng.chance(1, 5),
         });
     }
+    // a near twin of one of the generated programs (same shape, one atom changed)
+    let mut twin_pair: Option<(usize, usize)> = None;
+    if progs.len() < 4 && rng.chance(2, 5) {
+        let cands: Vec<usize> = (0..progs.len())
+            .filter(|i| !progs[*i].corpus && progs[*i].files.is_empty())
+            .collect();
+        if !cands.is_empty() {
+            let src = *rng.pick(&cands);
+            if let Some(t) = gen_prog::near_twin(&progs[src].text, rng) {
+                let mut twin = progs[src].clone();
+                twin.name = format!("twin{}.clsp", src);
+                twin.text = t;
+                progs.push(twin);
+                twin_pair = Some((progs.len() - 1, src));
+            }
+        }
+    }
+    let k = progs.len();
     let max_t = if thorough { 8 } else { 4 };
     let nt = match rng.below(4) {
         0 => 1,
@@ -722,6 +738,22 @@ pub fn generate(rng: &mut Rng, thorough: bool) -> Workload {
             ops,
             reuse_allocator: rng.chance(1, 6),
         });
+    }
+    // the twin and its original back to back on one thread, in either order
+    if let Some((tw, src)) = twin_pair {
+        let (a, b) = if rng.chance(1, 2) { (tw, src) } else { (src, tw) };
+        let t = rng.below(threads.len() as u64) as usize;
+        let at = rng.below(threads[t].ops.len() as u64 + 1) as usize;
+        for (k, p) in [a, b].iter().enumerate() {
+            threads[t].ops.insert(
+                at + k,
+                OpSpec {
+                    kind: OpK::Compile(*p),
+                    ambient: None,
+                    reenter: None,
+                },
+            );
+        }
     }
     Workload {
         progs,
@@ -1006,20 +1038,37 @@ pub fn run_one(w: &Workload, tape: &mut Tape, entropy_seed: u64) -> Result<RunRe
             }
         }
     }
-    // phase R
-    let world = seam::new_world(1, false, 1_000_000_000_000);
+    // phase R: every program gets a reference thread of its own (fresh thread-local state,
+    // constant entropy, name counter 0), one after the other
     let mut rp = RefPolicy {
         results: vec![None; w.progs.len()],
     };
-    let specs = vec![ActorSpec {
-        name: "reference".to_string(),
-        entropy_seed: REF_ENTROPY,
-        skew_ns: 0,
-        stack_bytes: 64 << 20,
-        body: ref_body(progs.clone()),
-    }];
-    let out_r = sched::run(world, specs, tape, &mut rp, 100_000, Duration::from_secs(600))
-        .map_err(|e| format!("{:?}", e))?;
+    let mut out_r = sched::RunOutcome {
+        events: vec![],
+        violation: None,
+        truncated: false,
+        panics: vec![],
+        log_hash: 0,
+        switches: 0,
+    };
+    for p in 0..w.progs.len() {
+        let world = seam::new_world(1, false, 1_000_000_000_000);
+        let specs = vec![ActorSpec {
+            name: "reference".to_string(),
+            entropy_seed: REF_ENTROPY,
+            skew_ns: 0,
+            stack_bytes: 64 << 20,
+            body: ref_body(progs.clone(), p),
+        }];
+        let o = sched::run(world, specs, tape, &mut rp, 100_000, Duration::from_secs(600))
+            .map_err(|e| format!("{:?}", e))?;
+        let base = out_r.events.len() as u32;
+        for mut e in o.events {
+            e.step += base;
+            out_r.events.push(e);
+        }
+        out_r.truncated |= o.truncated;
+    }
     let max_ref_allocs = rp
         .results
         .iter()
